@@ -17,14 +17,14 @@ CHECKS = {
  "C02": ("Slice and map options with SYMBOLIC, unbounded (min,max), attached or detached first value and 0-2 (thorough 3) following tokens drawn symbolically from "
          "{well-formed value, malformed value, --flag, -, --, command name}: the solver shows that exactly the tokens the statement says are consumed, "
          "values are stored in order (map: text before the first '=' / everything after, last key wins), leftovers are interpreted normally, too few values fail; "
-         "definitions with min<1 or max<min are rejected at definition; int ranges a..a+d (d<=3) expand inclusively for all a.",
+         "definitions with min<1 or max<min are rejected at definition; int ranges a..a+d (d<=3) expand inclusively for all a, also when the option already holds values from an earlier occurrence or an earlier mandatory value.",
          "one occurrence of the option, <=2/3 following tokens, int values are canonical numerals (numeral syntax is C01's subject), malformed values start with a letter outside every numeral syntax, range span <=3 with |a|<=2^62; "),
  "C03": ("Two unconstrained raw tokens (any bytes, any length) over a program with a flag, a string option and a command, in all 18 combinations of "
          "single-dash mode x unknown mode x require-order: on every path where Parse succeeds the solver shows remaining is an order-preserving sub-list of argv, "
          "plain positionals and unknown long options (Pass/Warn) are retained wherever they stand relative to the command token, and the tail behind the first `--` is verbatim; "
-         "constructed shapes cover positionals/unknowns before and after a command and bundles of unknown letters.",
+         "a single-dash first token holding an unknown option (any of the three modes) is retained; constructed shapes cover positionals/unknowns before and after a command, bundles of unknown letters, bundles whose first letter takes the next token as value and whose second is unknown (with and without require-order), and different unknown modes at root and command.",
          "argv of 2 raw tokens, bundles of <=2 letters, letters of 1-2 UTF-8 bytes (wider / invalid sequences are cut and counted); retention rules are necessary conditions only (DESIGN.md C03); "),
- "C04": ("For 16 contexts before `--` (nothing, positional, flag, satisfied option, bare optional-value option of three kinds, slice/map/int-list option with min reached and max not - detached, attached, with one extra value already taken -, command) "
+ "C04": ("For 18 contexts before `--` (nothing, positional, flag, satisfied option, bare optional-value option of three kinds, slice/map/int-list option with min reached and max not - detached, attached, with one extra value already taken -, an attached value of ANY shape in long and single-dash spelling, command) "
          "and two UNCONSTRAINED tail tokens, in every mode combination, the solver shows Parse succeeds, remaining ends with exactly the tail, no option/Called state "
          "or dispatch target changes because of the tail.",
          "two tail tokens, one context token group before `--`; the exempted case (`--` as a still-missing mandatory value) is only checked for returning normally; "),
@@ -34,18 +34,18 @@ CHECKS = {
          "three declared names, one option token (+ its value), default unknown mode; "),
  "C06": ("Relational: 1-2 occurrences of an option of 6 kinds, each spelled by a symbolically chosen alias (long, one ASCII letter, one multibyte letter) vs. the primary name on two fresh definitions "
          "must agree on every value, on remaining and on error-ness; Called is true under every name, CalledAs is the spelling last used, *Var target and Value(x) agree; "
-         "12 sibling options of all kinds with SYMBOLIC defaults keep them and report Called false; SetCalled is honoured.",
+         "12 sibling options of all kinds with SYMBOLIC defaults keep them and report Called false; SetCalled is honoured; one-letter multibyte aliases sharing a first byte address their own option only and ANY undeclared two-byte letter (symbolic) touches nothing.",
          "<=2 occurrences, 3 aliases, values are arbitrary strings (ints: canonical numerals); "),
  "C07": ("Relational, no oracle: in Normal mode -NAME[=v] vs --NAME[=v] for EVERY name text; in Bundling mode -xyz[=v] vs -x -y -z[=v] for declared letters; in SingleDash mode -xREST vs --x=REST for every REST "
          "(x one of 5 letters incl. a 2-byte one) and -x vs --x; any token starting with `--` under two different modes: all values, Called, CalledAs, remaining and error-ness must be equal.",
          "one option token plus an optional detached value; bundles of 2-3 declared letters; REST for the int option <=6 bytes; UTF-8 sequences of 1-2 bytes (longer/invalid cut and counted); default unknown mode; "),
- "C08": ("An unknown option (--x, --x=w with SYMBOLIC x matching no declared name as prefix, or -y) placed alone, between known options, before a command token, after one, or inside an UnsetOptions+Pass wrapper, "
+ "C08": ("An unknown option (--x, --x=w with SYMBOLIC x matching no declared name as prefix, or -y) placed alone, between known options, before a command token, after one, inside an UnsetOptions+Pass wrapper or a wrapper that inherited its mode, a number-looking unknown (-N for symbolic N, -2.5) behind an int / float list with room, "
          "in 3 modes x 3 unknown modes: Fail gives an error naming it with nil remaining, Warn writes a warning naming it and keeps it in remaining, Pass keeps it silently; surrounding known options take effect.",
          "one unknown token among <=3 other tokens; require-order off; "),
  "C09": ("With require-order, for 6 kinds of satisfied option groups before the stop point, 3 kinds of stop token (positional, unknown option with symbolic name, `-`) and two UNCONSTRAINED tail tokens: "
          "remaining is exactly [stop, t1, t2] and all values/Called equal those of a second run of the prefix alone without require-order; a command-name token before the stop still descends.",
          "two tail tokens, one option group before the stop; "),
- "C10": ("15 command-line shapes over a 3-level tree (inherited root option, command with child, command without function, UnsetOptions wrapper with own option and child, command-only require-order, optional help command) "
+ "C10": ("17 command-line shapes over a 3-level tree (inherited root option, command with child, command without function, UnsetOptions wrapper with own option and child, command-only require-order, optional help command) "
          "with symbolic payloads: exactly one instrumented CommandFn runs (none + error where the command has no function), with the caller's context, the remaining list Parse returned and the parsed own/inherited option values; "
          "a command name as option value, after `--` or after the require-order stop does not select.",
          "fixed tree of depth 3, shapes enumerated in harness c10.go; "),
@@ -54,35 +54,35 @@ CHECKS = {
          "ErrorHelpCalled, nothing runs, no missing-required error; unknown topic => error.",
          "tree of depth 2, one required option; "),
  "C12": ("For bool and the six scalar kinds with SYMBOLIC default, environment unset / empty / arbitrary SYMBOLIC text and the option absent, given as --name=v or as --name v with arbitrary v: "
-         "command line wins (bool: negated default); else a valid environment text is converted exactly (true/false case-insensitively), Called is true and CalledAs is the variable name; else the default; unset/empty changes nothing.",
+         "command line wins (bool: negated default); else a valid environment text is converted exactly (true/false case-insensitively), Called is true and CalledAs is the variable name; else the default; unset/empty changes nothing; the tree has commands whose names are possible value texts.",
          "single option; environment texts without NUL bytes; Called on an invalid numeric environment text is not asserted (statement silent); "),
  "C13": ("The real Graph.Run is executed by the engine's interpreter with goroutines, channels, select, mutexes and time.Sleep modelled; for every DAG shape of 3 tasks, every outcome (nil / error / ErrorSkipParents) of every task, "
          "buffered output on/off - and for 2 tasks with up to 2 retries in parallel, bounded and serial mode - EVERY order in which running tasks can be delivered to the scheduler loop is explored: "
          "a task is entered only after each dependency exited nil; attempts are sequential, at most retries+1, none after a success.",
          "3 tasks (2 with retries); all choices are finite-domain and enumerated by the engine, no SMT query is needed; scheduling policy 'maximal intervals' (DESIGN.md 2.8): tasks count as entered as early and returned as late as any real schedule allows; memory visibility rests on Go's happens-before edges (assumed); "),
  "C14": ("Same exploration: after a final-attempt error or an ErrorSkipParents no transitive dependent is ever entered; Run returns nil iff no task failed, otherwise an *Errors value holding the task's error and exactly one ErrorTaskSkipped entry per never-started task that is not above a skip-parents task; "
-         "cancellation before Run or by a running task: started tasks finish, nothing that was not ready at the cancel point starts, an unfinished graph makes Run return an error and every never-started task is accounted for by one ErrorTaskSkipped entry.",
+         "cancellation before Run or by a running task: started tasks finish, nothing that was not ready at the cancel point starts, an unfinished graph makes Run return an error and every never-started task is accounted for by one ErrorTaskSkipped entry; the skip report over all graphs of 4 tasks with two skipping (thorough: failing) tasks.",
          "3 tasks (2 with one retry in the three modes); cancellation by one task (when it starts or when it ends) or before Run; "),
  "C15": ("Four independent tasks contending for 1-3 slots or serial mode, with first-attempt failures and retries, every completion order: the number of task functions inside never exceeds the limit (1 in serial mode); "
          "the same bound while one of the tasks cancels the context (queued tasks must not start without a slot); two graphs run concurrently from two goroutines and sharing one Task (either graph serial, the ID first known through a placeholder) never execute it twice at once; "
-         "with buffered output every attempt's output reaches the writer as one contiguous block and every attempt is flushed.",
+         "with buffered output every attempt's output reaches the writer as one contiguous block and every attempt is flushed, also for 100 kB attempts through a writer whose every Write is a scheduling point.",
          "4 tasks, limits 1-3; two graphs sharing one task; interleavings between two scheduler loops are settled deterministically after each delivery, not enumerated; "),
  "C16": ("All sequences of 3 (thorough 4) construction calls, each a symbolic choice of AddTask / TaskDependsOn / TaskRetries over 3 tasks (re-adds, duplicate and self edges), followed by Run under every completion order: "
          "Run returns (the engine reports a hang when the scheduler loop spins with nothing in flight, replayed natively under a time limit), a cycle is rejected before any task starts with ErrorGraphHasCycle, acyclic graphs run every task once; "
-         "DepthFirstSort on every shape: each vertex once, dependencies first; work conservation checked at every idle point of the scheduler loop over all shapes/outcomes/modes.",
+         "DepthFirstSort on every shape: each vertex once, dependencies first; work conservation checked at every idle point of the scheduler loop over all shapes/outcomes/modes; Run also returns when the output writer refuses every Write.",
          "3 tasks, histories of 3/4 calls; "),
- "C17": ("Over a fixed tree (aliases, valid and suggested values, two command levels with static suggestions, wrapper, help command) with a SYMBOLIC last word (any bytes without white space), 5 shapes of earlier words, bash and zsh: "
+ "C17": ("Over a fixed tree (aliases, valid and suggested values, two command levels with static suggestions, wrapper, help command) with a SYMBOLIC last word (any bytes without white space), 7 shapes of earlier words (incl. a wrapper with an option of its own and its sub command), bash and zsh: "
          "the offered names are exactly the declared option names/aliases (resp. commands and suggestions) of the level reached that start with the typed text, sorted, each accepted by a normal Parse at that position; "
          "after --name= exactly the matching values (bash: the part after '='); no CommandFn runs and the exit path is taken.",
          "fixed tree; <=3 earlier words; last word without '=' in the name harness; dynamic completion functions are not part of the harness; "),
- "C18": ("12 option kinds x required (none / default / custom message) x env binding x 0-2 aliases x description (absent / SYMBOLIC single line / multi-line) x level (root / inheriting command) x 0-2 sub commands x help command, with SYMBOLIC default text: "
+ "C18": ("12 option kinds x required (none / default / custom message) x env binding x 0-2 aliases x description (absent / SYMBOLIC single line / multi-line) x level (root / inheriting command) x 0-2 sub commands x help command, with SYMBOLIC default text, plain and *Var declaration forms (the variable holding another value): "
          "exactly one entry per option carrying all aliases, none for an alias alone, under REQUIRED PARAMETERS iff required, default and env shown as stated, mentioned in the synopsis (bracketed iff optional), each sub command once with its description, help not listed; "
          "the text written via --help, -?, the help command equals Help().",
          "one option under test plus two context options; descriptions and defaults free of newline, '[' and '-'; "),
  "C19": ("Every instruction that can panic is checked and every loop is bounded on all explored paths: two UNCONSTRAINED raw tokens over the small program in all modes, one raw token (+ value / terminator / dash / command) over all 12 option kinds, "
          "COMP_LINE with a raw last word for both targets, Dispatch and Help() after every successful Parse, int ranges whose ends reach MaxInt64 / MinInt64; a failed Parse returns nil remaining.",
          "argv of <=2 tokens, bundles <=2 letters, numerals <=12 digits and no '..' in raw tokens (ranges have their own harness), quick tier restricts mode combinations (all 18 in thorough); "),
- "C20": ("12 scenarios with >=2 entries in every table (missing required options at root and on a command, unknown options in Fail and Warn mode, 3 ambiguous candidates, help text, `help <abbreviated topic>`, abbreviated option with attached value, option and command completion) are run under the canonical map order and under every explored "
+ "C20": ("14 scenarios with >=2 entries in every table (missing required options at root and on a command (also with names that differ only in letter case), unknown options in Fail and Warn mode, 3 ambiguous candidates, help text, `help <abbreviated topic>`, abbreviated option with attached value, option and command completion) are run under the canonical map order and under every explored "
          "iteration order of every map ranged over (all permutations up to 3 entries, rotations+reverse beyond): all observable output must be identical.",
          "one iteration order per map object per run; cross-process hidden state other than map order is not modelled; natively the scenario is repeated 300 times; "),
 }
